@@ -26,10 +26,481 @@ Record InvQ (c : cfg) (s : state) : Prop := {
                      sd_active (sp (Sd s y)) /\ sd_inline s y = false;
   (* the shutdown wait has a deadline iff the scheduler has a shutdown_timeout *)
   q_sdl : forall n, sp (Sd s n) = SdWait -> (sdl (Sd s n) = None <-> j_sdto (jc c n) = None);
-  (* the stragglers being awaited have all been sent a cancellation *)
+  (* the stragglers being awaited have all been sent a cancellation; the co_shutdown() task of a
+     nested scheduler consumes it (hcp back to false) when its own activity receives the
+     CancelledError: it is then tidying its own handlers, and will end as cancelled *)
   q_spcp : forall n x, sp (Sd s n) = SdTidy -> In x (spend (Sd s n)) ->
-                       hfin s x = true \/ hcp (Hd s x) = true;
+                       hfin s x = true \/ hcp (Hd s x) = true \/
+                       (j_sched (jc c x) = true /\ hs (Hd s x) = HRunning /\
+                        sp (Sd s x) = SdTidy /\ scanc (Sd s x) = true);
   (* a running handler of an atomic job has a deadline iff the handler has a duration *)
   q_hdur : forall j, j_sched (jc c j) = false -> hs (Hd s j) = HRunning ->
                      (hend (Hd s j) = None <-> j_sdur (jc c j) = None)
 }.
+
+(* ------------------------------------------------------------------ InvP *)
+
+Lemma optN_add_none t d : optN_add t d = None <-> d = None.
+Proof. destruct d; cbn; split; intros H; try discriminate; reflexivity. Qed.
+
+Lemma cancel_j_tend a : tend (cancel_j a) = tend a.
+Proof. unfold cancel_j. destruct (finished (st a)); reflexivity. Qed.
+
+Lemma InvP_init c : InvP c init.
+Proof.
+  split.
+  - intros n H. exfalso. apply H. reflexivity.
+  - reflexivity.
+  - intros n H. exfalso. apply H. reflexivity.
+  - intros j _ H. discriminate.
+  - intros j H. discriminate.
+Qed.
+
+Theorem InvP_step lvl c s e s' : wf c = true -> Inv1 c s -> InvP c s -> step lvl c s e = Some s' -> InvP c s'.
+Proof.
+  intros W I1 IP Hs.
+  pose proof (J_effect lvl c s e s' W (i_pend c s I1) Hs) as HJ.
+  split.
+  - (* members *)
+    intros n Hi Ho.
+    destruct (run_clock_step lvl c s e s' n Hs) as [[_ Hidle]|(o & Ee & _ & _)].
+    + apply (p_members c s IP n).
+      * intro E. apply Hi. apply Hidle. exact E.
+      * intro E. apply Ho. apply (phase_over_stable lvl c s e s' n W I1 Hs E).
+    + subst e. destruct (step_inv _ _ _ _ _ Hs) as [Es' _]. cbn [reaction] in Es'.
+      intro Em. apply Ho. rewrite Es', ph_react_begin, Nat.eqb_refl, Em. reflexivity.
+  - (* root *)
+    pose proof (p_root c s IP) as R0.
+    assert (Hnm : forall n, ~ In 0 (members c n)).
+    { intros n H. apply In_members in H. destruct H as (_ & _ & H). apply H. reflexivity. }
+    destruct (HJ 0)
+      as [H|H1 H2|HS H1 H2 H3 H4 H5|H1 H2 H3 H4 H5 H6 H7|H1 H2 H3 H4 H5 H6|HS H1 H2 H3 H4 H5 H6|HS H1 H2 H3 H4 H5|HS H1 H2 H3 H4 H5 H6|HS H1 H2 H3 H4 H5 H6 H7|HS H1 H2|HS H1 H2 H3].
+    + rewrite H. exact R0.
+    + exfalso. destruct H2 as (n & Hin & _). apply (Hnm n). apply (i_pend c s I1 n 0 Hin).
+    + rewrite R0 in H1. discriminate.
+    + exfalso. apply (Hnm _ H4).
+    + exfalso. apply (Hnm _ H3).
+    + rewrite R0 in H1. discriminate.
+    + rewrite R0 in H1. discriminate.
+    + rewrite R0 in H1. discriminate.
+    + rewrite R0 in H1. discriminate.
+    + rewrite R0 in H1. destruct H1 as [H1|[H1 _]]; discriminate.
+    + rewrite R0 in H1. discriminate.
+  - (* expiration *)
+    intros n Hi. destruct (run_clock_step lvl c s e s' n Hs) as [[He Hidle]|(o & _ & He & _)].
+    + rewrite He. apply (p_expi c s IP n). intro E. apply Hi. apply Hidle. exact E.
+    + rewrite He. apply optN_add_none.
+  - (* running bodies *)
+    intros j Ha Hst.
+    destruct (HJ j)
+      as [H|H1 H2|HS H1 H2 H3 H4 H5|H1 H2 H3 H4 H5 H6 H7|H1 H2 H3 H4 H5 H6|HS H1 H2 H3 H4 H5 H6|HS H1 H2 H3 H4 H5|HS H1 H2 H3 H4 H5 H6|HS H1 H2 H3 H4 H5 H6 H7|HS H1 H2|HS H1 H2 H3].
+    + rewrite H in *. apply (p_rund c s IP j Ha Hst).
+    + rewrite H1 in *. rewrite cancel_j_st in Hst. rewrite cancel_j_tend. apply (p_rund c s IP j Ha Hst).
+    + congruence.
+    + rewrite H2 in Hst. discriminate.
+    + rewrite H1 in Hst. discriminate.
+    + rewrite H6, Ha. apply optN_add_none.
+    + rewrite H5 in Hst. discriminate.
+    + rewrite Hst in H3. discriminate.
+    + congruence.
+    + rewrite H2 in Hst. discriminate.
+    + rewrite H3 in Hst. discriminate.
+  - (* cancelling *)
+    intros j Hst.
+    destruct (HJ j)
+      as [H|H1 H2|HS H1 H2 H3 H4 H5|H1 H2 H3 H4 H5 H6 H7|H1 H2 H3 H4 H5 H6|HS H1 H2 H3 H4 H5 H6|HS H1 H2 H3 H4 H5|HS H1 H2 H3 H4 H5 H6|HS H1 H2 H3 H4 H5 H6 H7|HS H1 H2|HS H1 H2 H3].
+    + rewrite H in *. apply (p_canc c s IP j Hst).
+    + rewrite H1 in *. rewrite cancel_j_st in Hst. rewrite cancel_j_tend. apply (p_canc c s IP j Hst).
+    + rewrite H4 in Hst. discriminate.
+    + rewrite H2 in Hst. discriminate.
+    + rewrite H1 in Hst. discriminate.
+    + congruence.
+    + rewrite H5 in Hst. discriminate.
+    + rewrite Hst in H3. discriminate.
+    + split; [exact H3|]. rewrite H7. discriminate.
+    + rewrite H2 in Hst. discriminate.
+    + rewrite H3 in Hst. discriminate.
+Qed.
+
+Theorem InvP_reach lvl c h s : wf c = true -> Reach lvl c h s -> InvP c s.
+Proof.
+  intros W Hr. revert h s Hr. apply reach_ind.
+  - apply InvP_init.
+  - intros h s e s' Hr IP Hs. eapply InvP_step; eauto. eapply Inv1_reach; eauto.
+Qed.
+
+(* ------------------------------------------------------------------ InvQ *)
+
+Lemma InvQ_init c : InvQ c init.
+Proof.
+  split.
+  - intros n H. discriminate.
+  - intros y _ H. discriminate.
+  - intros n H. discriminate.
+  - intros n x H. discriminate.
+  - intros j _ H. discriminate.
+Qed.
+
+(* the third clause at one awaited handler *)
+Definition sp_ok (c : cfg) (s : state) (x : nat) : Prop :=
+  hfin s x = true \/ hcp (Hd s x) = true \/
+  (j_sched (jc c x) = true /\ hs (Hd s x) = HRunning /\ sp (Sd s x) = SdTidy /\ scanc (Sd s x) = true).
+
+Lemma cancel_h_ok a : hfinished (hs (cancel_h a)) = true \/ hcp (cancel_h a) = true.
+Proof. unfold cancel_h. destruct (hfinished (hs a)) eqn:E; [left; exact E|right; reflexivity]. Qed.
+
+Lemma sched_id_sched c n : sched_id c n = true -> j_sched (jc c n) = true.
+Proof. unfold sched_id. intros H. apply andb_true_iff in H. tauto. Qed.
+
+Section StepQ.
+  Variables (c : cfg) (s s' : state).
+  Hypothesis W : wf c = true.
+  Hypothesis I8 : Inv8 c s.
+  Hypothesis IP : InvP c s.
+  Hypothesis IQ : InvQ c s.
+  Hypothesis HS : hs_step c s s'.
+
+  (* ---- q_inl *)
+  Lemma sq_inl n : sd_inline s' n = true -> sd_active (sp (Sd s' n)).
+  Proof.
+    intros Hi.
+    assert (Hpre : Sd s' n = Sd s n -> sd_inline s' n = sd_inline s n -> sd_active (sp (Sd s' n))).
+    { intros E Ei. rewrite E. apply (q_inl c s IQ n). rewrite <- Ei. exact Hi. }
+    pose proof HS as H. hs_cases H.
+    - apply Hpre; [apply hB|apply hC].
+    - destruct (Nat.eqb_spec n n0) as [->|Hm].
+      + rewrite hB. unfold sd_create. rewrite Nat.eqb_refl.
+        assert (Hnd : did (Sd s n0) = false).
+        { destruct (did (Sd s n0)) eqn:Ed; [|reflexivity]. exfalso.
+          destruct (k_phase c s I8 n0 Ed) as [K|[K|(K & _)]].
+          - unfold sd_inline in K. destruct hPh as [E|[w E]]; rewrite E in K; discriminate.
+          - destruct hPh as [E|[w E]]; rewrite E in K; discriminate.
+          - destruct hPh as [E|[w E]]; rewrite E in K; discriminate. }
+        rewrite Hnd. unfold sd_started.
+        assert (Hne : members c n0 <> []).
+        { apply (p_members c s IP n0); destruct hPh as [E|[w E]]; rewrite E; discriminate. }
+        destruct (members c n0) eqn:Em; [exfalso; congruence|]. left. reflexivity.
+      + apply Hpre; [rewrite hB; unfold sd_create; apply Nat.eqb_neq in Hm; rewrite Hm; reflexivity|].
+        apply sd_inline_ph. apply hO. exact Hm.
+    - assert (Ei : sd_inline s' n = sd_inline s n) by (apply sd_inline_ph; apply hO).
+      destruct (Nat.eqb_spec n n0) as [->|Hm].
+      + apply Hpre; [|exact Ei]. rewrite hB. unfold sd_create. rewrite Nat.eqb_refl.
+        rewrite (k_inl c s I8 n0); [reflexivity|]. rewrite <- Ei. exact Hi.
+      + apply Hpre; [|exact Ei]. rewrite hB. unfold sd_create. apply Nat.eqb_neq in Hm. rewrite Hm. reflexivity.
+    - destruct (Nat.eqb_spec n n0) as [->|Hm].
+      + exfalso. destruct (sd_inline s n0) eqn:E.
+        * destruct hX as [hX _]. unfold sd_inline in Hi. rewrite hX in Hi. discriminate.
+        * destruct hX as [hX _]. rewrite (sd_inline_ph s s' n0 hX) in Hi. congruence.
+      + apply Hpre; [rewrite hB; apply Nat.eqb_neq in Hm; rewrite Hm; reflexivity|].
+        apply sd_inline_ph. apply hO. exact Hm.
+    - destruct (Nat.eqb_spec n n0) as [->|Hm].
+      + rewrite hB, Nat.eqb_refl. right. reflexivity.
+      + apply Hpre; [rewrite hB; apply Nat.eqb_neq in Hm; rewrite Hm; reflexivity|].
+        apply sd_inline_ph. apply hO.
+    - destruct (Nat.eqb_spec n n0) as [->|Hm].
+      + exfalso. destruct (sd_inline s n0) eqn:E.
+        * destruct hX as [hX _]. unfold sd_inline in Hi. rewrite hX in Hi. discriminate.
+        * destruct hX as [hX _]. rewrite (sd_inline_ph s s' n0 hX) in Hi. congruence.
+      + apply Hpre; [rewrite hB; apply Nat.eqb_neq in Hm; rewrite Hm; reflexivity|].
+        apply sd_inline_ph. apply hO. exact Hm.
+    - destruct (Nat.eqb_spec n n0) as [->|Hm].
+      + rewrite hB, Nat.eqb_refl. right. reflexivity.
+      + apply Hpre; [rewrite hB; apply Nat.eqb_neq in Hm; rewrite Hm; reflexivity|].
+        apply sd_inline_ph. apply hO.
+    - apply Hpre; [apply hB|apply sd_inline_ph; apply hO].
+  Qed.
+
+  (* ---- q_hrun *)
+  (* a running co_shutdown() task stays consistent with its activity, or ends with it *)
+  Lemma run_keep y : hs (Hd s y) = HRunning -> sd_active (sp (Sd s y)) -> sd_inline s y = false ->
+    (sd_active (sp (Sd s' y)) /\ sd_inline s' y = false) \/ hs (Hd s' y) <> HRunning.
+  Proof.
+    intros Hr Ha Hi.
+    assert (Hpre : Sd s' y = Sd s y -> sd_inline s' y = sd_inline s y ->
+                   (sd_active (sp (Sd s' y)) /\ sd_inline s' y = false) \/ hs (Hd s' y) <> HRunning).
+    { intros E Ei. left. rewrite E, Ei. auto. }
+    pose proof HS as H. hs_cases H.
+    - apply Hpre; [apply hB|apply hC].
+    - destruct (Nat.eqb_spec y n0) as [->|Hm].
+      + exfalso. pose proof (active_did c s n0 I8 Ha) as Ed.
+        destruct (k_phase c s I8 n0 Ed) as [K|[K|(K & _)]].
+        * congruence.
+        * destruct hPh as [E|[w E]]; rewrite E in K; discriminate.
+        * destruct hPh as [E|[w E]]; rewrite E in K; discriminate.
+      + apply Hpre; [rewrite hB; unfold sd_create; apply Nat.eqb_neq in Hm; rewrite Hm; reflexivity|].
+        apply sd_inline_ph. apply hO. exact Hm.
+    - destruct (Nat.eqb_spec y n0) as [->|Hm].
+      + exfalso. destruct hG as [[G _]|(_ & G & _)]; congruence.
+      + apply Hpre; [rewrite hB; unfold sd_create; apply Nat.eqb_neq in Hm; rewrite Hm; reflexivity|].
+        apply sd_inline_ph. apply hO.
+    - destruct (Nat.eqb_spec y n0) as [->|Hm].
+      + right. rewrite Hi in hX. destruct hX as [_ hX]. rewrite hX, Nat.eqb_refl. discriminate.
+      + apply Hpre; [rewrite hB; apply Nat.eqb_neq in Hm; rewrite Hm; reflexivity|].
+        apply sd_inline_ph. apply hO. exact Hm.
+    - destruct (Nat.eqb_spec y n0) as [->|Hm].
+      + left. split; [rewrite hB, Nat.eqb_refl; right; reflexivity|].
+        rewrite (sd_inline_ph s s' n0 (hO n0)). exact Hi.
+      + apply Hpre; [rewrite hB; apply Nat.eqb_neq in Hm; rewrite Hm; reflexivity|].
+        apply sd_inline_ph. apply hO.
+    - destruct (Nat.eqb_spec y n0) as [->|Hm].
+      + right. rewrite Hi in hX. destruct hX as [_ hX]. rewrite hX, Nat.eqb_refl.
+        destruct (scanc (Sd s n0)); discriminate.
+      + apply Hpre; [rewrite hB; apply Nat.eqb_neq in Hm; rewrite Hm; reflexivity|].
+        apply sd_inline_ph. apply hO. exact Hm.
+    - destruct (Nat.eqb_spec y n0) as [->|Hm].
+      + left. split; [rewrite hB, Nat.eqb_refl; right; reflexivity|].
+        rewrite (sd_inline_ph s s' n0 (hO n0)). exact Hi.
+      + apply Hpre; [rewrite hB; apply Nat.eqb_neq in Hm; rewrite Hm; reflexivity|].
+        apply sd_inline_ph. apply hO.
+    - apply Hpre; [apply hB|apply sd_inline_ph; apply hO].
+  Qed.
+
+  (* the co_shutdown() task of a scheduler starts running only with a fresh broadcast of its own *)
+  Lemma run_new y : j_sched (jc c y) = true -> hs (Hd s y) <> HRunning -> hs (Hd s' y) = HRunning ->
+    sd_active (sp (Sd s' y)) /\ sd_inline s' y = false.
+  Proof.
+    intros Hsch Hn Hr.
+    destruct (hd_view c s s' y W I8 HS) as [H|n1 H1 H2 H3 H4|H1 H2 H3 H4|H1 H2 H3 H4 H5|H1 H2 H3 H4 H5 H6|v H1 H2].
+    - rewrite H in Hr. contradiction.
+    - rewrite H4 in Hr. discriminate.
+    - rewrite H1 in Hr. contradiction.
+    - destruct H5 as [[E _]|(E & Ed & Em)]; [rewrite E in Hr; discriminate|].
+      split.
+      + rewrite H4. unfold sd_create. rewrite Nat.eqb_refl, Ed. unfold sd_started.
+        destruct (members c y) eqn:Em2; [exfalso; congruence|]. left. reflexivity.
+      + rewrite (sd_inline_ph s s' y (H3 y)). destruct (sd_inline s y) eqn:Ei; [|reflexivity].
+        rewrite (k_inl c s I8 y Ei) in Ed. discriminate.
+    - contradiction.
+    - rewrite H1 in Hr. destruct H2 as [(Ha & _)|[(_ & _ & _ & Ev)|[(_ & _ & _ & Ev)|(_ & _ & _ & Ev)]]].
+      + destruct (atomic_id_spec _ _ Ha) as (Ha1 & _). congruence.
+      + rewrite Ev in Hr. discriminate.
+      + rewrite Ev in Hr. discriminate.
+      + rewrite Ev in Hr. discriminate.
+  Qed.
+
+  Lemma sq_hrun y : j_sched (jc c y) = true -> hs (Hd s' y) = HRunning ->
+    sd_active (sp (Sd s' y)) /\ sd_inline s' y = false.
+  Proof.
+    intros Hsch Hr.
+    destruct (hs (Hd s y)) eqn:E; try (apply run_new; auto; rewrite E; discriminate).
+    destruct (q_hrun c s IQ y Hsch E) as [Ha Hi].
+    destruct (run_keep y E Ha Hi) as [K|K]; [exact K|contradiction].
+  Qed.
+
+  (* ---- q_sdl *)
+  Lemma sq_sdl n : sp (Sd s' n) = SdWait -> (sdl (Sd s' n) = None <-> j_sdto (jc c n) = None).
+  Proof.
+    intros Hp.
+    assert (Hpre : Sd s' n = Sd s n -> (sdl (Sd s' n) = None <-> j_sdto (jc c n) = None)).
+    { intros E. rewrite E in *. apply (q_sdl c s IQ n Hp). }
+    pose proof HS as H. hs_cases H.
+    - apply Hpre. apply hB.
+    - destruct (Nat.eqb_spec n n0) as [->|Hm].
+      + pose proof (hB n0) as E. unfold sd_create in E. rewrite Nat.eqb_refl in E.
+        destruct (did (Sd s n0)); [apply Hpre; exact E|]. rewrite E in *. unfold sd_started in *.
+        revert Hp. destruct (members c n0); intros Hp; [discriminate Hp|]. cbn [sdl]. apply optN_add_none.
+      + apply Hpre. rewrite hB. unfold sd_create. apply Nat.eqb_neq in Hm. rewrite Hm. reflexivity.
+    - destruct (Nat.eqb_spec n n0) as [->|Hm].
+      + pose proof (hB n0) as E. unfold sd_create in E. rewrite Nat.eqb_refl in E.
+        destruct (did (Sd s n0)); [apply Hpre; exact E|]. rewrite E in *. unfold sd_started in *.
+        revert Hp. destruct (members c n0); intros Hp; [discriminate Hp|]. cbn [sdl]. apply optN_add_none.
+      + apply Hpre. rewrite hB. unfold sd_create. apply Nat.eqb_neq in Hm. rewrite Hm. reflexivity.
+    - destruct (Nat.eqb_spec n n0) as [->|Hm].
+      + rewrite hB, Nat.eqb_refl in Hp. discriminate.
+      + apply Hpre. rewrite hB. apply Nat.eqb_neq in Hm. rewrite Hm. reflexivity.
+    - destruct (Nat.eqb_spec n n0) as [->|Hm].
+      + rewrite hB, Nat.eqb_refl in Hp. discriminate.
+      + apply Hpre. rewrite hB. apply Nat.eqb_neq in Hm. rewrite Hm. reflexivity.
+    - destruct (Nat.eqb_spec n n0) as [->|Hm].
+      + rewrite hB, Nat.eqb_refl in Hp. discriminate.
+      + apply Hpre. rewrite hB. apply Nat.eqb_neq in Hm. rewrite Hm. reflexivity.
+    - destruct (Nat.eqb_spec n n0) as [->|Hm].
+      + rewrite hB, Nat.eqb_refl in Hp. discriminate.
+      + apply Hpre. rewrite hB. apply Nat.eqb_neq in Hm. rewrite Hm. reflexivity.
+    - apply Hpre. apply hB.
+  Qed.
+
+  (* ---- q_spcp *)
+  Lemma sp_ok_same x : Hd s' x = Hd s x -> (sd_active (sp (Sd s x)) -> Sd s' x = Sd s x) ->
+    sp_ok c s x -> sp_ok c s' x.
+  Proof.
+    intros EH ES [H|[H|(H1 & H2 & H3 & H4)]].
+    - left. unfold hfin in *. rewrite EH. exact H.
+    - right. left. rewrite EH. exact H.
+    - right. right. rewrite EH, ES by (right; exact H3). auto.
+  Qed.
+
+  Lemma sp_ok_not x : hfinished (hs (Hd s x)) = false -> hcp (Hd s x) = false -> hs (Hd s x) <> HRunning ->
+    ~ sp_ok c s x.
+  Proof.
+    intros A B C [H|[H|(_ & H & _)]]; [unfold hfin in H; congruence|congruence|contradiction].
+  Qed.
+
+  Lemma hd_create_ok n0 x : sp_ok c s x -> hd_create c s n0 x = Hd s x.
+  Proof.
+    intros Hok. unfold hd_create. destruct (did (Sd s n0)) eqn:Ed; [reflexivity|].
+    destruct (memb x (members c n0)) eqn:Em; [|reflexivity]. exfalso.
+    apply memb_In in Em. pose proof (k_none c s I8 n0 x Em Ed) as E0.
+    apply (sp_ok_not x); [rewrite E0; reflexivity|rewrite E0; reflexivity|rewrite E0; discriminate|exact Hok].
+  Qed.
+
+  Lemma cancel_list_members n0 y : In y (sd_cancel_list c s n0) -> In y (members c n0).
+  Proof.
+    intros Hy. unfold sd_cancel_list in Hy.
+    destruct (sp (Sd s n0)) eqn:E; try (apply (k_spend c s I8 n0 y Hy)). exact Hy.
+  Qed.
+
+  Lemma sp_ok_step x : x <> 0 -> x < njobs c -> sp_ok c s x -> sp_ok c s' x.
+  Proof.
+    intros Hx0 Hxl Hok. pose proof HS as H. hs_cases H.
+    - (* frame *)
+      apply sp_ok_same; [apply hA|intros _; apply hB|exact Hok].
+    - (* inline start *)
+      apply sp_ok_same; [rewrite hA; apply hd_create_ok; exact Hok| |exact Hok].
+      intros Ha. rewrite hB. unfold sd_create. destruct (Nat.eqb_spec x n0) as [->|Hm]; [|reflexivity].
+      rewrite (active_did c s n0 I8 Ha). reflexivity.
+    - (* sdstart *)
+      destruct (Nat.eqb_spec x n0) as [->|Hxn].
+      + exfalso. destruct hG as [[G1 G2]|(_ & _ & G3 & _)]; [|contradiction].
+        apply (sp_ok_not n0); [rewrite G1; reflexivity|exact G2|rewrite G1; discriminate|exact Hok].
+      + apply Nat.eqb_neq in Hxn. apply sp_ok_same; [| |exact Hok].
+        * rewrite hA, Hxn. apply hd_create_ok. exact Hok.
+        * intros _. rewrite hB. unfold sd_create. rewrite Hxn. reflexivity.
+    - (* wake_all *)
+      destruct (Nat.eqb_spec x n0) as [->|Hxn].
+      + destruct (sd_inline s n0) eqn:Ei.
+        * destruct hX as [_ hX]. destruct Hok as [K|[K|(_ & _ & K & _)]].
+          -- left. unfold hfin in *. rewrite hX. exact K.
+          -- right. left. rewrite hX. exact K.
+          -- congruence.
+        * destruct hX as [_ hX]. left. unfold hfin. rewrite hX, Nat.eqb_refl. reflexivity.
+      + apply Nat.eqb_neq in Hxn. apply sp_ok_same; [| |exact Hok].
+        * destruct (sd_inline s n0); destruct hX as [_ hX]; rewrite hX; [reflexivity|]. rewrite Hxn. reflexivity.
+        * intros _. rewrite hB, Hxn. reflexivity.
+    - (* wake_some *)
+      pose proof (hA x) as Ax. destruct (memb x p0) eqn:Em.
+      + destruct (cancel_h_ok (Hd s x)) as [K|K]; [left; unfold hfin|right; left]; rewrite Ax; exact K.
+      + destruct (Nat.eqb_spec x n0) as [->|Hxn].
+        * destruct Hok as [K|[K|(_ & _ & K & _)]].
+          -- left. unfold hfin in *. rewrite Ax. exact K.
+          -- right. left. rewrite Ax. exact K.
+          -- congruence.
+        * apply Nat.eqb_neq in Hxn. apply sp_ok_same; [exact Ax| |exact Hok].
+          intros _. rewrite hB, Hxn. reflexivity.
+    - (* tidy_wake *)
+      destruct (Nat.eqb_spec x n0) as [->|Hxn].
+      + destruct (sd_inline s n0) eqn:Ei.
+        * destruct hX as [_ hX]. destruct Hok as [K|[K|(K1 & K2 & _)]].
+          -- left. unfold hfin in *. rewrite hX. exact K.
+          -- right. left. rewrite hX. exact K.
+          -- destruct (q_hrun c s IQ n0 K1 K2) as [_ Kf]. congruence.
+        * destruct hX as [_ hX]. left. unfold hfin. rewrite hX, Nat.eqb_refl.
+          destruct (scanc (Sd s n0)); reflexivity.
+      + apply Nat.eqb_neq in Hxn. apply sp_ok_same; [| |exact Hok].
+        * destruct (sd_inline s n0); destruct hX as [_ hX]; rewrite hX; [reflexivity|]. rewrite Hxn. reflexivity.
+        * intros _. rewrite hB, Hxn. reflexivity.
+    - (* cancel *)
+      destruct (Nat.eqb_spec x n0) as [Exn|Hxn]; pose proof (hA x) as Ax; cbn zeta in Ax.
+      + subst x. assert (Em : memb n0 (sd_cancel_list c s n0) = false).
+        { apply memb_false. intro Hin. apply (member_neq c n0 n0 W (cancel_list_members n0 n0 Hin)). reflexivity. }
+        rewrite Em, Nat.eqb_refl, andb_true_r in Ax.
+        unfold sd_thread in hTh. destruct (sd_inline s n0) eqn:Ei; cbn [negb] in Ax.
+        * destruct Hok as [K|[K|(K1 & K2 & _)]].
+          -- left. unfold hfin in *. rewrite Ax. exact K.
+          -- right. left. rewrite Ax. exact K.
+          -- destruct (q_hrun c s IQ n0 K1 K2) as [_ Kf]. congruence.
+        * destruct hTh as [Hr Hc]. right. right. rewrite Ax, hB, Nat.eqb_refl. cbn [hs sp scanc].
+          split; [|auto]. apply sched_id_sched. apply (k_valid c s I8 n0). apply (active_did c s n0 I8 hSp).
+      + apply Nat.eqb_neq in Hxn. rewrite Hxn, andb_false_r in Ax.
+        destruct (memb x (sd_cancel_list c s n0)).
+        * destruct (cancel_h_ok (Hd s x)) as [K|K]; [left; unfold hfin|right; left]; rewrite Ax; exact K.
+        * apply sp_ok_same; [exact Ax| |exact Hok]. intros _. rewrite hB, Hxn. reflexivity.
+    - (* handler event *)
+      destruct (Nat.eqb_spec x j0) as [->|Hxj].
+      + pose proof (hA j0) as Ax. rewrite Nat.eqb_refl in Ax.
+        destruct hV as [(_ & G1 & G2 & _)|[(_ & _ & _ & Ev)|[(_ & _ & _ & Ev)|(_ & _ & _ & Ev)]]].
+        * exfalso. apply (sp_ok_not j0); [rewrite G1; reflexivity|exact G2|rewrite G1; discriminate|exact Hok].
+        * left. unfold hfin. rewrite Ax, Ev. reflexivity.
+        * left. unfold hfin. rewrite Ax, Ev. reflexivity.
+        * left. unfold hfin. rewrite Ax, Ev. reflexivity.
+      + apply Nat.eqb_neq in Hxj. apply sp_ok_same; [rewrite hA, Hxj; reflexivity|intros _; apply hB|exact Hok].
+  Qed.
+
+  Lemma sq_spcp n x : sp (Sd s' n) = SdTidy -> In x (spend (Sd s' n)) -> sp_ok c s' x.
+  Proof.
+    intros Hsp Hx.
+    assert (Hpre : Sd s' n = Sd s n -> sp_ok c s' x).
+    { intros E. rewrite E in *.
+      pose proof (k_spend c s I8 n x Hx) as Hm. apply In_members in Hm. destruct Hm as (M1 & _ & M3).
+      apply sp_ok_step; auto. apply (q_spcp c s IQ n x Hsp Hx). }
+    pose proof HS as H. hs_cases H.
+    - apply Hpre. apply hB.
+    - destruct (Nat.eqb_spec n n0) as [->|Hm].
+      + pose proof (hB n0) as E. unfold sd_create in E. rewrite Nat.eqb_refl in E.
+        destruct (did (Sd s n0)); [apply Hpre; exact E|]. exfalso.
+        rewrite E in Hsp. unfold sd_started in Hsp. destruct (members c n0); discriminate.
+      + apply Hpre. rewrite hB. unfold sd_create. apply Nat.eqb_neq in Hm. rewrite Hm. reflexivity.
+    - destruct (Nat.eqb_spec n n0) as [->|Hm].
+      + pose proof (hB n0) as E. unfold sd_create in E. rewrite Nat.eqb_refl in E.
+        destruct (did (Sd s n0)); [apply Hpre; exact E|]. exfalso.
+        rewrite E in Hsp. unfold sd_started in Hsp. destruct (members c n0); discriminate.
+      + apply Hpre. rewrite hB. unfold sd_create. apply Nat.eqb_neq in Hm. rewrite Hm. reflexivity.
+    - destruct (Nat.eqb_spec n n0) as [->|Hm].
+      + rewrite hB, Nat.eqb_refl in Hsp. discriminate.
+      + apply Hpre. rewrite hB. apply Nat.eqb_neq in Hm. rewrite Hm. reflexivity.
+    - destruct (Nat.eqb_spec n n0) as [->|Hm].
+      + rewrite hB, Nat.eqb_refl in Hx. cbn [spend] in Hx. apply memb_In in Hx.
+        pose proof (hA x) as Ax. rewrite Hx in Ax.
+        destruct (cancel_h_ok (Hd s x)) as [K|K]; [left; unfold hfin|right; left]; rewrite Ax; exact K.
+      + apply Hpre. rewrite hB. apply Nat.eqb_neq in Hm. rewrite Hm. reflexivity.
+    - destruct (Nat.eqb_spec n n0) as [->|Hm].
+      + rewrite hB, Nat.eqb_refl in Hsp. discriminate.
+      + apply Hpre. rewrite hB. apply Nat.eqb_neq in Hm. rewrite Hm. reflexivity.
+    - destruct (Nat.eqb_spec n n0) as [->|Hm].
+      + rewrite hB, Nat.eqb_refl in Hx. cbn [spend] in Hx.
+        assert (Hxn : x <> n0) by (apply (member_neq c n0 x W); apply cancel_list_members; exact Hx).
+        apply Nat.eqb_neq in Hxn. apply memb_In in Hx.
+        pose proof (hA x) as Ax. cbn zeta in Ax. rewrite Hx, Hxn, andb_false_r in Ax.
+        destruct (cancel_h_ok (Hd s x)) as [K|K]; [left; unfold hfin|right; left]; rewrite Ax; exact K.
+      + apply Hpre. rewrite hB. apply Nat.eqb_neq in Hm. rewrite Hm. reflexivity.
+    - apply Hpre. apply hB.
+  Qed.
+
+  (* ---- q_hdur *)
+  Lemma sq_hdur j : j_sched (jc c j) = false -> hs (Hd s' j) = HRunning ->
+    (hend (Hd s' j) = None <-> j_sdur (jc c j) = None).
+  Proof.
+    intros Ha Hr.
+    destruct (hd_view c s s' j W I8 HS) as [H|n1 H1 H2 H3 H4|H1 H2 H3 H4|H1 H2 H3 H4 H5|H1 H2 H3 H4 H5 H6|v H1 H2].
+    - rewrite H in *. apply (q_hdur c s IQ j Ha Hr).
+    - rewrite H4 in Hr. discriminate.
+    - rewrite H1 in Hr. rewrite H2. apply (q_hdur c s IQ j Ha Hr).
+    - pose proof (sched_id_sched c j H1) as Hsch. congruence.
+    - destruct H6 as [E|E]; rewrite E in Hr; discriminate.
+    - rewrite H1 in *. destruct H2 as [(_ & _ & _ & Ev)|[(_ & _ & _ & Ev)|[(_ & _ & _ & Ev)|(_ & _ & _ & Ev)]]];
+        rewrite Ev in *; try discriminate. cbn [hend]. apply optN_add_none.
+  Qed.
+End StepQ.
+
+Theorem InvQ_step lvl c s e s' : wf c = true -> 3 <= lvl -> InvE c s -> InvP c s -> InvQ c s ->
+  step lvl c s e = Some s' -> InvQ c s'.
+Proof.
+  intros W Hl [ID I8] IP IQ Hs.
+  pose proof (ic_1 c s (id_c c s ID)) as I1.
+  pose proof (HS_effect lvl c s e s' W I1 Hl Hs) as HS.
+  split.
+  - eapply sq_inl; eauto.
+  - eapply sq_hrun; eauto.
+  - eapply sq_sdl; eauto.
+  - intros n x Hsp Hx. eapply sq_spcp; eauto.
+  - eapply sq_hdur; eauto.
+Qed.
+
+Theorem InvQ_reach lvl c h s : wf c = true -> 3 <= lvl -> Reach lvl c h s -> InvQ c s.
+Proof.
+  intros W Hl Hr. revert h s Hr. apply reach_ind.
+  - apply InvQ_init.
+  - intros h s e s' Hr IQ Hs. eapply InvQ_step; eauto.
+    + eapply InvE_reach; eauto.
+    + eapply InvP_reach; eauto.
+Qed.
